@@ -6,8 +6,12 @@ package types
 //
 // (*Payload).Set dispatches through the package-level table `metadataFields` of
 // closures, which the executor does not follow: its contract is ASSUMED and
-// cross-checked on every run by the exhaustive stand-in /verif/standins/payload_set_test.go.
+// cross-checked (thorough tier; bounded, not a proof) by the stand-in test
+// /verif/standins/payload_set_test.go: every key of the table x 14 values x 3 start states.
+//@ standin types.(*Payload).Set types standins/payload_set_test.go TestVerifStandinPayloadSet
+//@ spec isMetaKey(k string) bool := k == MetaSignalType || k == MetaTraceID || k == MetaAnnotationType || k == MetaRefineryIncomingUserAgent || k == MetaRefineryLocalHostname || k == MetaRefineryReason || k == MetaRefinerySendReason || k == MetaRefinerySampleKey || k == MetaSpanEventCount || k == MetaSpanLinkCount || k == MetaSpanCount || k == MetaEventCount || k == MetaRefineryOriginalSampleRate || k == MetaRefineryFinalSampleRate || k == MetaRefineryProbe || k == MetaRefineryRoot || k == MetaStressed
 //@ assume types.(*Payload).Set
+//@   ensures[generic-fields] p.memoizedFields == ite(isMetaKey(key), old(p.memoizedFields), mapset(old(p.memoizedFields), key, value))
 //@   ensures p.MetaSignalType == ite(key == MetaSignalType && isString(value), anyString(value), old(p.MetaSignalType))
 //@   ensures p.MetaTraceID == ite(key == MetaTraceID && isString(value), anyString(value), old(p.MetaTraceID))
 //@   ensures p.MetaAnnotationType == ite(key == MetaAnnotationType && isString(value), anyString(value), old(p.MetaAnnotationType))
@@ -42,3 +46,4 @@ package types
 //@   modifies e.dataSize
 //@ assume types.(*Span).GetDataSize
 //@   modifies sp.Event.dataSize
+//@ contract types.(*Payload).IsEmpty inline
